@@ -1,4 +1,6 @@
 import Eliot.Properties.C08
+import Eliot.Proofs.SysCtxPlace
+import Eliot.Proofs.SysAction
 /-!
 # C13 — typed fields are serialized exactly once; serializer failures are contained
 
@@ -179,10 +181,40 @@ theorem logNoSer_healthy_stage (env : Env) (hh : ∀ d k, env.destFails d k = no
   simp only [World.buildLog]
   exact Fields.get?_set_self _ _ _
 
+theorem send_healthy_eq (env : Env) (hh : ∀ d k, env.destFails d k = none) (w : World) (m : Msg) :
+    w.send env m = (w.deliver env m).1 := by
+  unfold World.send
+  simp only
+  rw [deliver_healthy env hh]
+  rfl
+
+theorem logNoSer_healthy_eq (env : Env) (hh : ∀ d k, env.destFails d k = none) (w : World) (t : String) (f : Fields) :
+    w.logNoSer env t f = ((w.currentOrFresh.1.buildLog w.currentOrFresh.2 t f).1.deliver env
+      (w.currentOrFresh.1.buildLog w.currentOrFresh.2 t f).2).1 := by
+  unfold World.logNoSer
+  simp only
+  rw [send_healthy_eq env hh]
+
+/-- one `log_message` without serializer, healthy destinations: the dict that is staged, and what the
+next `log_message` will see of the actions, the context and the uuid counter -/
+theorem logNoSer_healthy_exact (env : Env) (hh : ∀ d k, env.destFails d k = none) (w : World) (t : String) (f : Fields) :
+    let b := w.currentOrFresh.1.buildLog w.currentOrFresh.2 t f
+    (w.logNoSer env t f).stage = w.stage ++ [Fields.update b.2 w.globals] ∧
+    (w.logNoSer env t f).acts = b.1.acts ∧ (w.logNoSer env t f).ctx = b.1.ctx ∧
+    (w.logNoSer env t f).nextUuid = b.1.nextUuid ∧ (w.logNoSer env t f).globals = w.globals := by
+  intro b
+  have q := (quiet_currentOrFresh w).trans (quiet_buildLog w.currentOrFresh.1 w.currentOrFresh.2 t f)
+  obtain ⟨c1, c2, c3, c4⟩ := deliver_core env b.1 b.2
+  rw [logNoSer_healthy_eq env hh]
+  refine ⟨?_, c1, c2, c3, c4.trans q.frame.globals⟩
+  rw [deliver_stage, q.stage, q.frame.globals]
+
 /-- **serializer_failure_contained**: if a serializer raises (or a declared field is missing), the
 message is *not* staged; instead exactly one `eliot:traceback` and one `eliot:serialization_failure`
-are logged (in the current context: `logNoSer` takes the next positions of the current action, or
-fresh one-message tasks when there is none), and the call returns normally (it is a total function).
+are logged, both **in the caller's context**: with an action `h` current they are the next two direct
+items of `h` (`h`'s uuid, `h`'s level extended by `last + 1` and `last + 2`); with no current action
+each is a one-message task of its own (two fresh uuids, level `[1]`) — provided global fields do not
+override `task_uuid` / `task_level`.  The call returns normally (it is a total function).
 Stated for healthy destinations and an exception class without a registered extractor, so that no
 report / nested traceback is interleaved (those cases are covered by C08 / the fan-out theorems). -/
 theorem serializer_failure_contained (env : Env) (hh : ∀ d k, env.destFails d k = none) (w : World) (m : Msg)
@@ -192,54 +224,109 @@ theorem serializer_failure_contained (env : Env) (hh : ∀ d k, env.destFails d 
     ∃ tb sf, (w.loggerWrite env m (some ss)).stage = w.stage ++ [tb, sf] ∧
       tb.get? "message_type" = some (.str "eliot:traceback") ∧
       tb.get? "reason" = some (.str (e.safeStr env)) ∧
-      sf.get? "message_type" = some (.str "eliot:serialization_failure") := by
+      sf.get? "message_type" = some (.str "eliot:serialization_failure") ∧
+      (w.globals.get? "task_uuid" = none → w.globals.get? "task_level" = none →
+        (∀ (c : Nat) (a : Act), w.ctx = some c → w.acts[c]? = some a →
+          tb.get? "task_uuid" = some (.uuid a.uuid) ∧ tb.get? "task_level" = some (.lvl (a.level ++ [a.last + 1])) ∧
+          sf.get? "task_uuid" = some (.uuid a.uuid) ∧ sf.get? "task_level" = some (.lvl (a.level ++ [a.last + 2]))) ∧
+        (w.ctx = none →
+          tb.get? "task_uuid" = some (.uuid w.nextUuid) ∧ tb.get? "task_level" = some (.lvl [1]) ∧
+          sf.get? "task_uuid" = some (.uuid (w.nextUuid + 1)) ∧ sf.get? "task_level" = some (.lvl [1]))) := by
   unfold World.loggerWrite
   simp only
   rw [← serializeFields_eq] at h
   rw [h]
   simp only
-  have q := quiet_serializeFields env ss w m
+  obtain ⟨n, hn⟩ := serializeFields_world env ss w m
+  rw [hn]
+  -- `w0`: the state after the failed serialization; it differs from `w` in the serializer-call counter only
+  generalize hw0 : ({ w with serCalls := n } : World) = w0
+  have e0 : w0.stage = w.stage ∧ w0.globals = w.globals ∧ w0.ctx = w.ctx ∧ w0.acts = w.acts ∧ w0.nextUuid = w.nextUuid := by
+    subst hw0; exact ⟨rfl, rfl, rfl, rfl, rfl⟩
+  obtain ⟨es, eg, ec, ea, eu⟩ := e0
   -- write_traceback: no extractor, so exactly one log call
-  have hgf : World.getFields env (serializeFields env w ss m).1 e = ((serializeFields env w ss m).1, []) := by
-    simp [World.getFields, hx]
+  have hgf : World.getFields env w0 e = (w0, []) := by simp [World.getFields, hx]
   unfold World.writeTraceback
   rw [hgf]
   simp only
-  have hg1 : (serializeFields env w ss m).1.globals.get? "message_type" = none := by rw [q.frame.globals]; exact hg
-  obtain ⟨tb, htb, htbt⟩ := logNoSer_healthy_stage env hh (serializeFields env w ss m).1 "eliot:traceback"
-    (tracebackFields env e []) hg1
-  have f1 := frame_logNoSer env (serializeFields env w ss m).1 "eliot:traceback" (tracebackFields env e [])
-  have hg2 : ((serializeFields env w ss m).1.logNoSer env "eliot:traceback" (tracebackFields env e [])).globals.get? "message_type" = none := by
-    rw [f1.globals]; exact hg1
-  obtain ⟨sf, hsf, hsft⟩ := logNoSer_healthy_stage env hh _ "eliot:serialization_failure" [("message", .render m.keys)] hg2
-  refine ⟨tb, sf, by rw [hsf, htb, q.stage]; simp, htbt, ?_, hsft⟩
-  -- the traceback's reason
-  have : tb = Fields.update ((serializeFields env w ss m).1.currentOrFresh.1.buildLog
-      (serializeFields env w ss m).1.currentOrFresh.2 "eliot:traceback" (tracebackFields env e [])).2
-      (serializeFields env w ss m).1.globals := by
-    unfold World.logNoSer at htb
-    simp only at htb
-    have q2 := (quiet_currentOrFresh (serializeFields env w ss m).1).trans
-      (quiet_buildLog (serializeFields env w ss m).1.currentOrFresh.1 (serializeFields env w ss m).1.currentOrFresh.2
-        "eliot:traceback" (tracebackFields env e []))
-    rw [send_healthy_stage env hh, q2.stage, q2.frame.globals] at htb
-    have := List.append_cancel_left htb
-    simpa using this.symm
-  subst this
-  rw [q.frame.globals, Fields.get?_update_none _ _ _ hgr]
-  simp only [World.buildLog]
-  rw [Fields.get?_set_ne _ _ _ _ (by decide), Fields.get?_set_ne _ _ _ _ (by decide),
-    Fields.get?_set_ne _ _ _ _ (by decide), Fields.get?_set_ne _ _ _ _ (by decide)]
-  simp [tracebackFields, Fields.update, Fields.get?, Fields.set]
+  obtain ⟨s1, a1, c1, u1, g1⟩ := logNoSer_healthy_exact env hh w0 "eliot:traceback" (tracebackFields env e [])
+  obtain ⟨s2, _, _, _, _⟩ := logNoSer_healthy_exact env hh (w0.logNoSer env "eliot:traceback" (tracebackFields env e []))
+    "eliot:serialization_failure" [("message", .render m.keys)]
+  refine ⟨_, _, by rw [s2, s1, es, List.append_assoc]; rfl, ?_, ?_, ?_, fun hgu hgl => ⟨fun c a hc ha => ?_, fun hc => ?_⟩⟩
+  · rw [eg, Fields.get?_update_none _ _ _ hg]
+    simp only [World.buildLog]
+    exact Fields.get?_set_self _ _ _
+  · rw [eg, Fields.get?_update_none _ _ _ hgr]
+    simp only [World.buildLog]
+    rw [Fields.get?_set_ne _ _ _ _ (by decide), Fields.get?_set_ne _ _ _ _ (by decide),
+      Fields.get?_set_ne _ _ _ _ (by decide), Fields.get?_set_ne _ _ _ _ (by decide)]
+    simp [tracebackFields, Fields.update, Fields.get?, Fields.set]
+  · rw [g1, eg, Fields.get?_update_none _ _ _ hg]
+    simp only [World.buildLog]
+    exact Fields.get?_set_self _ _ _
+  · -- an action is current: both notices are its next two direct items
+    have hc0 : w0.ctx = some c := ec.trans hc
+    have ha0 : w0.acts[c]? = some a := by rw [ea]; exact ha
+    obtain ⟨_, t1, t2, _, t4, t5, _, _⟩ := buildLog_in_current w0 c a hc0 ha0 "eliot:traceback" (tracebackFields env e [])
+    have hlt : c < w0.acts.length := lt_of_getElem?_some ha0
+    have hc1 : (w0.logNoSer env "eliot:traceback" (tracebackFields env e [])).ctx = some c := c1.trans t5
+    have ha1 : (w0.logNoSer env "eliot:traceback" (tracebackFields env e [])).acts[c]? = some { a with last := a.last + 1 } := by
+      rw [a1, t4, List.getElem?_set_self hlt]
+    obtain ⟨_, r1, r2, _⟩ := buildLog_in_current _ c _ hc1 ha1 "eliot:serialization_failure" [("message", .render m.keys)]
+    refine ⟨?_, ?_, ?_, ?_⟩
+    · rw [eg, Fields.get?_update_none _ _ _ hgu]; exact t1
+    · rw [eg, Fields.get?_update_none _ _ _ hgl]; exact t2
+    · rw [g1, eg, Fields.get?_update_none _ _ _ hgu]; exact r1
+    · rw [g1, eg, Fields.get?_update_none _ _ _ hgl]; exact r2
+  · -- no action is current: two one-message tasks
+    have hc0 : w0.ctx = none := ec.trans hc
+    obtain ⟨t1, t2, _, _, t5, t6⟩ := buildLog_contextless w0 hc0 "eliot:traceback" (tracebackFields env e [])
+    have hc1 : (w0.logNoSer env "eliot:traceback" (tracebackFields env e [])).ctx = none := c1.trans t5
+    obtain ⟨r1, r2, _⟩ := buildLog_contextless _ hc1 "eliot:serialization_failure" [("message", .render m.keys)]
+    refine ⟨?_, ?_, ?_, ?_⟩
+    · rw [eg, Fields.get?_update_none _ _ _ hgu, t1, eu]
+    · rw [eg, Fields.get?_update_none _ _ _ hgl]; exact t2
+    · rw [g1, eg, Fields.get?_update_none _ _ _ hgu, r1, u1, t6, eu]
+    · rw [g1, eg, Fields.get?_update_none _ _ _ hgl]; exact r2
 
-/-- **per_kind_serializer**: start messages use the start serializer, successful ends the success
-serializer, failed ends only the built-in (identity / constant) fields. -/
+/-- **per_kind_serializer** (start): the start message is written with the *start* serializer of the
+action's type (`a.sers.map (·.1)`; `none` for an untyped action). -/
 theorem per_kind_serializer (env : Env) (w : World) (h : Nat) (a : Act) (ha : w.acts[h]? = some a) (f : Fields) :
     w.startRec env h f =
       (((w.clock.1.nextLevel h).1).loggerWrite env
         ((((((f.set "action_status" (.str "started")).set "timestamp" w.clock.2).set "task_uuid" (.uuid a.uuid)).set
           "action_type" (.str a.atype))).set "task_level" (.lvl (w.clock.1.nextLevel h).2)) (a.sers.map (·.1))) := by
   simp [World.startRec, ha]
+
+/-- **per_kind_serializer** (successful end): `finish()` of an unfinished action writes the success
+dict (success fields, status, timestamp, place) with the *success* serializer (`a.sers.map (·.2)`). -/
+theorem per_kind_serializer_success (env : Env) (w : World) (h : Nat) (a : Act) (ha : w.acts[h]? = some a)
+    (hf : a.finished = false) :
+    w.finishRec env h none =
+      ((w.setFin h a).clock.1.nextLevel h).1.loggerWrite env (succDict a (.ts w.tick)) (a.sers.map (·.2)) :=
+  finishRec_ok_eq env w h a ha hf
+
+/-- writing with the failure serializer of any action type runs no user serializer: the dict goes to
+`Destinations.send` as it is -/
+theorem failure_serializer_is_identity (env : Env) (W : World) (m : Msg) (s : Option (List (String × Nat) × List (String × Nat))) :
+    W.loggerWrite env m (s.map (fun _ => [])) = W.send env m := by
+  cases s <;> rfl
+
+/-- **per_kind_serializer** (failed end): `finish(e)` of an unfinished action writes the failure dict
+(extracted fields, `exception`, `reason`, status, timestamp, place — `ts`/`lvl` are read after
+`get_fields_for_exception`, which may itself have logged) with the failure serializer, which
+has only built-in fields: neither the start nor the success serializer is applied to it. -/
+theorem per_kind_serializer_failure (env : Env) (w : World) (h : Nat) (a : Act) (e : Exc) (ha : w.acts[h]? = some a)
+    (hf : a.finished = false) :
+    let g := World.getFields env (w.setFin h a) e
+    let W := (g.1.clock.1.nextLevel h).1
+    let m := ((((((g.2.set "exception" (.str (e.qual env))).set "reason" (.str (e.safeStr env))).set "action_status"
+      (.str "failed")).set "timestamp" (.ts g.1.tick)).set "task_uuid" (.uuid a.uuid)).set "action_type"
+      (.str a.atype)).set "task_level" (.lvl (g.1.clock.1.nextLevel h).2)
+    w.finishRec env h (some e) = W.loggerWrite env m (a.sers.map (fun _ => [])) ∧
+    W.loggerWrite env m (a.sers.map (fun _ => [])) = W.send env m := by
+  intro g W m
+  exact ⟨finishRec_err_eq env w h a e ha hf, failure_serializer_is_identity env W m a.sers⟩
 
 /-! ## Non-vacuity: a non-idempotent serializer (output depends on the call index), a failing one -/
 def exEnv : Env where
@@ -257,6 +344,30 @@ example : applySers exEnv 0 [("x", 1), ("y", 7)] [("x", .nat 10), ("y", .nat 20)
     firstExtractor exEnv (exEnv.mro ((Exc.user 5).cls exEnv)) = none := ⟨by rfl, by rfl⟩
 example : let w := (execB exEnv none {} (.cons (.addDests [0]) (.cons (.log { mtype := "t", fields := [("y", .nat 1)], sers := some [("y", 7)] }) .nil))).1
     w.stage.map (·.get? "message_type") = [some (.str "eliot:traceback"), some (.str "eliot:serialization_failure")] := by
+  decide +kernel
+
+/-- placement of the two notices: inside action `a` (uuid 0, start message at `[1]`; the message that fails to
+serialize was built at `[2]` and is not staged) they are `[3]` and `[4]` of `a`, the end message is `[5]`; logged with
+no current action (the failing message had its own task, uuid 1) they are two tasks of their own (uuids 2 and 3,
+level `[1]`) -/
+example : let w := (execB exEnv none {} (.cons (.addDests [0]) (.cons (.withAction false { atype := "a" }
+      (.cons (.log { mtype := "t", fields := [("y", .nat 1)], sers := some [("y", 7)] }) .nil))
+      (.cons (.log { mtype := "t", fields := [("y", .nat 1)], sers := some [("y", 7)] }) .nil)))).1
+    w.stage.map (fun m => (m.get? "message_type", m.get? "task_uuid", m.get? "task_level")) =
+      [(none, some (.uuid 0), some (.lvl [1])),
+       (some (.str "eliot:traceback"), some (.uuid 0), some (.lvl [3])),
+       (some (.str "eliot:serialization_failure"), some (.uuid 0), some (.lvl [4])),
+       (none, some (.uuid 0), some (.lvl [5])),
+       (some (.str "eliot:traceback"), some (.uuid 2), some (.lvl [1])),
+       (some (.str "eliot:serialization_failure"), some (.uuid 3), some (.lvl [1]))] := by
+  decide +kernel
+
+/-- per_kind_serializer: start serializer 1 on the start message, success serializer 2 on the end message -/
+example : let w := (execB exEnv none {} (.cons (.addDests [0]) (.cons (.withAction false
+      { atype := "a", fields := [("x", .nat 1)], sers := some ([("x", 1)], [("r", 2)]) }
+      (.cons (.addSuccess none [("r", .nat 5)]) .nil)) .nil))).1
+    w.stage.map (fun m => (m.get? "x", m.get? "r")) =
+      [(some (.serOut 1 0 (.nat 1)), none), (none, some (.serOut 2 1 (.nat 5)))] := by
   decide +kernel
 
 end Sys.C13
